@@ -18,6 +18,12 @@ import (
 
 func init() {
 	Checks["C03"] = checkC03
+	Replayers["C03/ponder"] = func(data json.RawMessage) (bool, string) {
+		var cs c03case
+		_ = json.Unmarshal(data, &cs)
+		_, msg, _, _ := runPonder(context.Background(), cs, 200_000_000)
+		return msg != "", msg
+	}
 	Replayers["C03/case"] = func(data json.RawMessage) (bool, string) {
 		var cs c03case
 		_ = json.Unmarshal(data, &cs)
@@ -125,6 +131,55 @@ func runC03(ctx context.Context, cs c03case, budget int64) (cls, msg string, ski
 	return "", "", false
 }
 
+// runPonder: a search restricted to a given first move (search.Context.Ponder: "limit search to
+// variation") must return minus the value of that move's child one ply shallower, with a
+// variation that starts with the move, and hand the board back.
+func runPonder(ctx context.Context, cs c03case, budget int64) (cls, msg string, checked int, skipped bool) {
+	cfg := cfgByName(cs.Cfg)
+	_, g := newSearchBoards(cs.Root, 0)
+	for _, rm := range g.Cur().Legal() {
+		s, rcfg, reset := cfg.Make()
+		b, _ := newSearchBoards(cs.Root, 0)
+		if b.Result().Outcome == board.Draw {
+			return "", "", checked, false
+		}
+		reset(ctx, b)
+		im, ok := bridge.FindImpl(b.Position(), b.Turn(), rm.String())
+		if !ok {
+			continue
+		}
+		before := bridge.Snapshot(b, true)
+		_, score, pv, err := s.Search(ctx, &search.Context{TT: search.NoTranspositionTable{}, Ponder: []board.Move{im}}, b, cs.Depth)
+		if err != nil {
+			return "ponder-error", "search returned an error: " + err.Error(), checked, false
+		}
+		if after := bridge.Snapshot(b, true); !sameState(before, after, true) {
+			return "ponder-board", fmt.Sprintf("pondering %s: the board was not handed back in the state it was received in", rm), checked, false
+		}
+		b2, g2 := newSearchBoards(cs.Root, 0)
+		reset(ctx, b2)
+		explore := search.FullExploration
+		if rcfg.Explore != nil {
+			explore = rcfg.Explore
+		}
+		_ = explore // the ponder move is explored "even if not intended to be explored"
+		cv, ok, cerr := refsearch.New(rcfg, b2, g2, budget).ChildValue(ctx, rm.String(), cs.Depth)
+		if cerr != nil || !ok {
+			skipped = true
+			continue
+		}
+		checked++
+		rs, ok := bridge.RefScore(score)
+		if !ok || !rs.Eq(cv) {
+			return "ponder-score", fmt.Sprintf("search limited to the variation [%s] returned %v (pv %s); that move is worth %v", rm, score, bridge.MovesText(pv), bridge.ImplScore(cv)), checked, false
+		}
+		if len(pv) > 0 && bridge.Text(pv[0]) != rm.String() {
+			return "ponder-pv", fmt.Sprintf("search limited to the variation [%s] returned a variation starting with %s", rm, bridge.Text(pv[0])), checked, false
+		}
+	}
+	return "", "", checked, skipped
+}
+
 func depthsFor(c *harness.Check, r searchRoot, cfg string) []int {
 	if strings.Contains(r.Tags, "rich") {
 		if cfg == "full/captures-quiescence" || cfg == "turochamp" {
@@ -157,7 +212,7 @@ func depthsFor(c *harness.Check, r searchRoot, cfg string) []int {
 
 func checkC03(c *harness.Check) {
 	mustAnchors(c)
-	c.Rule = "search corpus (mate/stalemate nets, small endgames, tactical fragments, roots whose history makes a repetition / the fifty-move rule / insufficient material occur inside the tree - with equal and with unequal material -, five capture-rich middlegames at depth <= 2-3) x depth 0..D x 7 configurations (full+static, full+captures-only quiescence, TUROCHAMP quiescence, SARGON one-ply-if-checked without under-promotions, BERNSTEIN plausible moves at limits 7/3/1); each case: full-window AlphaBeta.Search vs unpruned reference negamax/quiescence under the reference score order, PV legal + within depth + first move attains the value + non-empty when it must be, board snapshot unchanged. distinct_nontrivial = distinct (root, config, depth, value) with depth >= 1"
+	c.Rule = "search corpus (mate/stalemate nets, small endgames, tactical fragments, roots whose history makes a repetition / the fifty-move rule / insufficient material occur inside the tree - with equal and with unequal material -, five capture-rich middlegames at depth <= 2-3) x depth 0..D x 7 configurations (full+static, full+captures-only quiescence, TUROCHAMP quiescence, SARGON one-ply-if-checked without under-promotions, BERNSTEIN plausible moves at limits 7/3/1); each case: full-window AlphaBeta.Search vs unpruned reference negamax/quiescence under the reference score order, PV legal + within depth + first move attains the value + non-empty when it must be, board snapshot unchanged; and searches LIMITED TO A VARIATION (Context.Ponder = each legal first move of the net and tactical roots): value = minus the reference value of that move's child, variation starts with the move. distinct_nontrivial = distinct (root, config, depth, value) with depth >= 1"
 	var cases []c03case
 	for _, r := range append(append([]searchRoot(nil), searchRoots...), richRoots...) {
 		for _, cfg := range searchCfgs {
@@ -197,7 +252,34 @@ func checkC03(c *harness.Check) {
 			c.Distinct(cs.String())
 		}
 	})
-	c.Transitions.Store(int64(len(cases)))
+	// searches limited to a variation (Context.Ponder), every legal first move
+	var pcases []c03case
+	for _, r := range searchRoots {
+		if !strings.Contains(r.Tags, "net") && !strings.Contains(r.Tags, "tactical") {
+			continue
+		}
+		for _, cfgName := range []string{"full/material", "full/captures-quiescence", "sargon", "bernstein/3"} {
+			for d := 1; d <= c.Pick(3, 4); d++ {
+				pcases = append(pcases, c03case{r, cfgName, d})
+			}
+		}
+	}
+	harness.Parallel(len(pcases), func(i int) {
+		if c.Expired() {
+			return
+		}
+		cs := pcases[i]
+		cls, msg, n, skipped := runPonder(ctx, cs, budget)
+		c.Evaluations.Add(int64(n))
+		c.AddExtra("ponder_searches_checked", int64(n))
+		if skipped {
+			c.AddExtra("cases_skipped_reference_budget", 1)
+		}
+		if msg != "" {
+			c.Violation(cc.sig("C03/"+cls, cs.String()), msg+"\n    case: "+cs.String(), "C03/ponder", cs)
+		}
+	})
+	c.Transitions.Store(int64(len(cases) + len(pcases)))
 	c.Sample(map[string]any{"root": "k7/8/2K5/8/8/8/8/7R b - - 0 1", "config": "full/material", "depth": 5, "oracle": "unpruned negamax: mated in 4"})
 	c.Sample(cases[len(cases)/2])
 	c.Finish()
